@@ -157,6 +157,50 @@ pub fn build(_args: &[String]) -> i32 {
     }
 }
 
+/// `conform c14-concurrent --phrases FILE --threads N`: N in-memory databases built at the same moment by N threads of
+/// one fresh process (nothing else has touched the library in it); each answers every phrase.  One line per answer:
+/// thread, phrase number, description of the returned constant (null: none).
+pub fn concurrent(args: &[String]) -> i32 {
+    quiet_panics();
+    let phrases: Vec<(usize, String)> = serde_json::from_slice(&std::fs::read(arg_value(args, "--phrases").expect("--phrases")).expect("phrases")).expect("json");
+    let n = arg_num(args, "--threads", 6) as usize;
+    let phrases = std::sync::Arc::new(phrases);
+    let barrier = std::sync::Arc::new(std::sync::Barrier::new(n));
+    let mut hs = Vec::new();
+    for t in 0..n {
+        let (phrases, barrier) = (phrases.clone(), barrier.clone());
+        hs.push(std::thread::spawn(move || {
+            barrier.wait();
+            let db = match Db::in_memory() {
+                Ok(db) => db,
+                Err(e) => return vec![json!({"t": t, "failed": e.to_string()})],
+            };
+            let mut lines = Vec::new();
+            for (q, p) in phrases.iter() {
+                let r = std::panic::catch_unwind(std::panic::AssertUnwindSafe(|| {
+                    let parsed = anything::parse(p).ok()?;
+                    let mut ds = Vec::new();
+                    let rs: Vec<_> = anything::query(&parsed, &db, anything::Options::default().describe(), &mut ds).collect();
+                    if rs.len() != 1 || rs[0].is_err() {
+                        return None;
+                    }
+                    ds.into_iter().next().map(|d| match d {
+                        anything::Description::Constant(_, c) => c.description.to_string(),
+                    })
+                }));
+                lines.push(json!({"t": t, "q": q, "desc": r.unwrap_or(None)}));
+            }
+            lines
+        }));
+    }
+    for h in hs {
+        for l in h.join().unwrap_or_default() {
+            println!("{}", l);
+        }
+    }
+    0
+}
+
 pub fn trace(args: &[String]) -> i32 {
     quiet_panics();
     let out_path = arg_value(args, "--out").expect("--out");
@@ -199,6 +243,7 @@ pub fn trace(args: &[String]) -> i32 {
     let mut lookups = 0usize;
     let mut problems: Vec<Value> = Vec::new();
     let mut layouts: Vec<(usize, PathBuf, Vec<Vec<usize>>)> = Vec::new();
+    let mut first_answer: BTreeMap<usize, i64> = BTreeMap::new();
     for (sid, s) in plan.iter().enumerate() {
         if s.kind == "disk_rebuild" {
             // the stored hash no longer matches: the tool must rebuild into the existing index
@@ -305,7 +350,59 @@ pub fn trace(args: &[String]) -> i32 {
             }
             // (0 is the trace specification's "not asked yet": a constant that cannot be identified is -2)
             let shown: i64 = if returned == 0 { -2 } else { returned as i64 };
+            first_answer.entry(qi + 1).or_insert(shown);
             out.line(&json!({"ev": "lookup", "s": sid, "q": qi + 1, "phrase": q, "win": shown, "tie": tie, "full": full}));
+        }
+    }
+    // In-memory databases built at the same moment by the threads of one fresh process: each is a session of the history.
+    let conc = arg_num(args, "--concurrent", 6) as usize;
+    if conc > 0 {
+        let mut ask: Vec<(usize, String)> = tie_phrases.iter().map(|qi| (*qi + 1, qs[*qi].clone())).collect();
+        ask.extend(qs.iter().enumerate().filter(|(qi, _)| qi % 7 == 0 && !tie_phrases.contains(qi)).map(|(qi, p)| (qi + 1, p.clone())).take(300));
+        let pf = work.join("concurrent-phrases.json");
+        std::fs::write(&pf, serde_json::to_vec(&ask).unwrap()).unwrap();
+        let exe = std::env::current_exe().expect("own path");
+        for round in 0..3 {
+            let o = std::process::Command::new(&exe).arg("c14-concurrent").arg("--phrases").arg(&pf).arg("--threads").arg(conc.to_string())
+                .env("XDG_DATA_HOME", work.join("conc-home")).env("HOME", work.join("conc-home")).output();
+            let o = match o {
+                Ok(o) if o.status.success() => o,
+                _ => {
+                    problems.push(json!({"what": "the process with concurrent in-memory builds failed"}));
+                    continue;
+                }
+            };
+            let mut started = BTreeSet::new();
+            for line in String::from_utf8_lossy(&o.stdout).lines() {
+                let v: Value = match serde_json::from_str(line) {
+                    Ok(v) => v,
+                    Err(_) => continue,
+                };
+                let sid = 300 + round * 20 + v["t"].as_u64().unwrap_or(0) as usize;
+                if started.insert(sid) {
+                    out.line(&json!({"ev": "session", "id": sid, "kind": "memory_concurrent", "docs": 0}));
+                }
+                if v.get("failed").is_some() {
+                    problems.push(json!({"what": "a concurrent in-memory build failed", "error": v["failed"]}));
+                    continue;
+                }
+                let q = v["q"].as_u64().unwrap_or(0) as usize;
+                // the returned constant is identified by its description; should several constants share it, the one the
+                // history already knows is meant
+                let win: i64 = match v["desc"].as_str() {
+                    Some(d) => {
+                        let known = first_answer.get(&q).copied().unwrap_or(0);
+                        if known >= 1 && (known as usize) <= shipped.len() && shipped[known as usize - 1].1.description == *d {
+                            known
+                        } else {
+                            shipped.iter().position(|(_, c)| c.description == *d).map(|i| i as i64 + 1).unwrap_or(-2)
+                        }
+                    }
+                    None => -1,
+                };
+                lookups += 1;
+                out.line(&json!({"ev": "lookup", "s": sid, "q": q, "phrase": qs[q - 1], "win": win, "tie": [win], "full": false}));
+            }
         }
     }
     // Builds under contention: several processes build their own on-disk index at the same time (scheduling of any
